@@ -144,6 +144,31 @@ func (x *Exec) parseClause(cl *Clause) SpecNode {
 func (x *Exec) specCall(env *evalEnv, n *ast.CallExpr) (Val, bool) {
 	id, isId := n.Fun.(*ast.Ident)
 	if !isId {
+		// pkg.def(...) : a spec-language definition of an imported package
+		if sel, ok := n.Fun.(*ast.SelectorExpr); ok {
+			if pid, ok := sel.X.(*ast.Ident); ok {
+				if _, bound := env.bound[pid.Name]; !bound {
+					if pn, ok := x.lookupObj(env, pid).(*types.PkgName); ok && x.v.cs.Defs != nil {
+						if _, ok := x.v.cs.Defs[pn.Imported().Path()+"::"+sel.Sel.Name]; ok {
+							e2 := *env
+							e2.pkg = pn.Imported()
+							// arguments are evaluated in the caller's environment
+							var args []ast.Expr
+							e2.bound = map[string]Val{}
+							for k, v := range env.bound {
+								e2.bound[k] = v
+							}
+							for i, a := range n.Args {
+								nm := fmt.Sprintf("arg__%d", i)
+								e2.bound[nm] = x.expr(env, a)
+								args = append(args, ast.NewIdent(nm))
+							}
+							return x.specCall(&e2, &ast.CallExpr{Fun: ast.NewIdent(sel.Sel.Name), Args: args})
+						}
+					}
+				}
+			}
+		}
 		return Val{}, false
 	}
 	switch id.Name {
@@ -341,10 +366,15 @@ func (x *Exec) specFuncCall(env *evalEnv, n *ast.CallExpr, fn *types.Func) Val {
 	return Val{"(" + name + " " + strings.Join(as, " ") + ")", rt}
 }
 
-// specBody turns  { if c {return a}; ...; return z }  into nested ite
+// specBody turns a body made of if / return statements into a term (general fall-through semantics)
 func (x *Exec) specBody(env *evalEnv, stmts []ast.Stmt) (string, bool) {
+	return x.retTerm(env, stmts, "", false)
+}
+
+// retTerm: value returned by executing stmts; rest is the value if they fall through (hasRest false: no fall-through allowed)
+func (x *Exec) retTerm(env *evalEnv, stmts []ast.Stmt, rest string, hasRest bool) (string, bool) {
 	if len(stmts) == 0 {
-		return "", false
+		return rest, hasRest
 	}
 	switch s := stmts[0].(type) {
 	case *ast.ReturnStmt:
@@ -352,28 +382,24 @@ func (x *Exec) specBody(env *evalEnv, stmts []ast.Stmt) (string, bool) {
 			return "", false
 		}
 		return x.expr(env, s.Results[0]).S, true
+	case *ast.BlockStmt:
+		after, ok := x.retTerm(env, stmts[1:], rest, hasRest)
+		return x.retTerm(env, s.List, after, ok)
 	case *ast.IfStmt:
 		if s.Init != nil {
 			return "", false
 		}
+		after, okAfter := x.retTerm(env, stmts[1:], rest, hasRest)
 		c := x.expr(env, s.Cond)
-		a, ok := x.specBody(env, s.Body.List)
+		a, ok := x.retTerm(env, s.Body.List, after, okAfter)
 		if !ok {
 			return "", false
 		}
-		var rest []ast.Stmt
+		b, okb := after, okAfter
 		if s.Else != nil {
-			switch e := s.Else.(type) {
-			case *ast.BlockStmt:
-				rest = e.List
-			case *ast.IfStmt:
-				rest = []ast.Stmt{e}
-			}
-		} else {
-			rest = stmts[1:]
+			b, okb = x.retTerm(env, []ast.Stmt{s.Else}, after, okAfter)
 		}
-		b, ok := x.specBody(env, rest)
-		if !ok {
+		if !okb {
 			return "", false
 		}
 		return ite(c.S, a, b), true
